@@ -564,6 +564,7 @@ func c08CacheCoherence(c *Ctx) {
 		c.und("cache-coherence", "chain caches", "", "no cache-typed field found (cachedFilters renamed?)")
 	}
 	c.needFixture("cache-coherence")
+	c08AtomicCheckThenStore(c)
 }
 
 // l1HandlerIndexEveryEntry: the message-hash → tx-hash entry is written / removed for every L1 handler transaction of the
@@ -686,4 +687,94 @@ func c08AlwaysResets(p *Prog, fn *ssa.Function, fld string, depth int, busy map[
 		q = append(q, b.Succs...)
 	}
 	return true
+}
+
+
+// c08AtomicCheckThenStore: an in-memory mirror of recorded chain data kept in a sync/atomic holder is filled lazily only with
+// CompareAndSwap: `if x.Load() == nil { v := read(); x.Store(v) }` is a check-then-act race — a writer that publishes a newer
+// value between the reader's database read and its Store is overwritten with the older one, and every later answer (finality
+// status, l1_accepted) derives from the stale mirror (seeded change C08-H). Decided for the chain object's packages: no
+// Store on an atomic field is control-dependent on a Load of the same field in the same function.
+func c08AtomicCheckThenStore(c *Ctx) {
+	p := c.P
+	isAtomic := func(t types.Type) bool {
+		if pt, ok := t.Underlying().(*types.Pointer); ok {
+			t = pt.Elem()
+		}
+		return strings.HasPrefix(t.String(), "sync/atomic.")
+	}
+	scope := map[string]bool{"blockchain": true, "blockchain/statebackend": true, "sync/preconfirmed": true, "pruner": true, "core": true, "core/state": true}
+	n := 0
+	for _, fn := range p.sortedFuncs() {
+		if !scope[pkgRelOf(fn)] || len(fn.Blocks) == 0 || strings.HasSuffix(p.Pos(fnPos(fn)), "_test.go") {
+			continue
+		}
+		var loads, stores []Site
+		for _, s := range sitesOf(fn) {
+			if s.Callee == nil || s.Callee.Signature.Recv() == nil || !isAtomic(s.Callee.Signature.Recv().Type()) || len(s.Args()) == 0 {
+				continue
+			}
+			switch s.Callee.Name() {
+			case "Load":
+				loads = append(loads, s)
+			case "Store":
+				stores = append(stores, s)
+			}
+		}
+		for _, st := range stores {
+			n++
+			fld := term(st.Args()[0])
+			bad := ""
+			for _, ld := range loads {
+				if term(ld.Args()[0]) != fld {
+					continue
+				}
+				call, ok := ld.Instr.(*ssa.Call)
+				if !ok {
+					continue
+				}
+				// the store is control-dependent on a branch whose condition derives from the load
+				for _, fct := range factsAt(st.Instr) {
+					if valueDerivesFrom(fct.Cond, call, 0) {
+						bad = p.Pos(ld.Pos())
+					}
+				}
+			}
+			c.check(bad == "", "atomic-check-then-store", qname(fn)+": "+fld+".Store", p.Pos(st.Pos()), "not conditional on a Load of the same holder", "Store on "+fld+" is executed under a condition computed from "+fld+".Load() ("+bad+"): check-then-act — a concurrent writer's newer value is overwritten by the value this path read earlier; use CompareAndSwap")
+		}
+	}
+	_ = n
+	c.needFixture("atomic-check-then-store")
+}
+
+func valueDerivesFrom(v ssa.Value, src ssa.Value, d int) bool {
+	if v == nil || d > 8 {
+		return false
+	}
+	if v == src {
+		return true
+	}
+	switch x := v.(type) {
+	case *ssa.BinOp:
+		return valueDerivesFrom(x.X, src, d+1) || valueDerivesFrom(x.Y, src, d+1)
+	case *ssa.UnOp:
+		return valueDerivesFrom(x.X, src, d+1)
+	case *ssa.Phi:
+		for _, e := range x.Edges {
+			if valueDerivesFrom(e, src, d+1) {
+				return true
+			}
+		}
+	case *ssa.Convert:
+		return valueDerivesFrom(x.X, src, d+1)
+	case *ssa.ChangeType:
+		return valueDerivesFrom(x.X, src, d+1)
+	case *ssa.Call:
+		for _, a := range x.Call.Args {
+			if valueDerivesFrom(a, src, d+1) {
+				return true
+			}
+		}
+	}
+	return false
 }
